@@ -50,9 +50,15 @@ func NewQuery(queryString string) (*Query, error) {
 	}
 
 	if query.stmt.Condition != nil {
+		cond := query.stmt.Condition
+		if b, ok := cond.(*influxql.BinaryExpr); ok && b != nil && b.Op == influxql.OR {
+			// Expressions are printed without parentheses and AND binds tighter than OR:
+			// keep the user's condition together so the time range applies to all of it.
+			cond = &influxql.ParenExpr{Expr: cond}
+		}
 		query.stmt.Condition = &influxql.BinaryExpr{
 			Op:  influxql.AND,
-			LHS: query.stmt.Condition,
+			LHS: cond,
 			RHS: &influxql.BinaryExpr{
 				Op:  influxql.AND,
 				LHS: startExpr,
